@@ -118,6 +118,11 @@ func drawStream(t *rapid.T, dpool []*dialectInfo) *streamCase {
 		case "valid":
 			f, kind := mkValid()
 			sc.segs = append(sc.segs, segment{kind: kind, bytes: f.Bytes(), valid: true})
+			if rapid.IntRange(0, 5).Draw(t, "the_same_frame_again") == 0 {
+				// byte for byte, sequence number and all (a sender that never counts, a log replayed twice): each
+				// copy is a frame of the stream
+				sc.segs = append(sc.segs, segment{kind: kind, bytes: f.Bytes(), valid: true})
+			}
 			if sc.cleanly || rapid.Bool().Draw(t, "sep") {
 				sc.segs = append(sc.segs, segment{kind: "junk", bytes: nonMarkerJunk(t, "sepjunk")})
 			}
